@@ -405,6 +405,7 @@ class C16(Property):
         from edxml import Template
         from edxml.error import EDXMLOntologyValidationError
         tpl = case['template']
+        self.other_definition()
         o = build_ontology()
         et = o.get_event_type('t')
         try:
@@ -434,6 +435,7 @@ class C16(Property):
                     outs.append('raised:' + type(ex).__name__)
             try:
                 et.set_story_template(tpl)
+                self.refused_evaluation(et)
                 outs.append(et.evaluate_template(e, 'story', capitalize=True))
             except Exception as ex:
                 outs.append('raised:' + type(ex).__name__)
@@ -504,6 +506,37 @@ class C16(Property):
                 durations.append([a, b, t])
         return {'shown': [[k, v] for k, v in shown.items()], 'raw': [[k, v] for k, v in raw.items()], 'atts': [[k, v] for k, v in atts.items()],
                 'dates': dates, 'spans': spans, 'durations': durations}
+
+    @staticmethod
+    def other_definition():
+        """Another ontology in the same process defines an event type of the same name and version whose properties have other
+        data types, and evaluates a template for it: what is evaluated afterwards must not depend on that."""
+        from edxml.ontology import Ontology
+        from edxml import Template
+        from edxml.event import EDXMLEvent
+        try:
+            o = Ontology()
+            et = o.create_event_type('t')
+            for name in PROPS:
+                o.create_object_type('alt.' + name, data_type='number:float' if name in ('s', 't', 'n') else 'string:0:mc:u')
+                et.create_property(name, 'alt.' + name).make_optional().make_multivalued()
+            ev = EDXMLEvent({name: ['1.5'] if name in ('s', 't', 'n') else ['text'] for name in PROPS}, 't', '/s/')
+            Template(' '.join('[[%s]]' % name for name in PROPS)).evaluate(et, ev.get_properties(), {}, capitalize=False)
+        except Exception:
+            pass
+
+    @staticmethod
+    def refused_evaluation(et):
+        """The story of the event type is evaluated for an event whose values cannot be rendered (this raises); the event type is
+        used again afterwards."""
+        from edxml.event import EDXMLEvent
+        try:
+            # (values that can be prepared for display, but not rendered by the date, boolean and coordinate formatters)
+            bad = EDXMLEvent({'s': ['POISON'], 't': ['POISON'], 'm': ['POISON'], 'd1': ['yesterday'], 'd2': ['never'], 'b': ['maybe'],
+                              'bm': ['maybe'], 'g': ['nowhere'], 'f': ['2.500000E+00'], 'n': ['9']}, 't', '/s/')
+            et.evaluate_template(bad, 'story')
+        except Exception:
+            pass
 
     def requests(self, case):
         envs = [self.env_of(ev, case['rep']) for ev in case['events']]
